@@ -64,9 +64,11 @@ def run_one(prop, repo, job, workdir, idx, timeout):
            '--shard-file', shard_file, '--out', out_file,
            '--watchdog', str(max(5, timeout - 5))]
     t0 = time.time()
+    env = worker_env(repo)
+    env['PV_WORKDIR'] = workdir
     try:
         cp = subprocess.run(
-            cmd, cwd=VERIF, env=worker_env(repo), capture_output=True,
+            cmd, cwd=VERIF, env=env, capture_output=True,
             text=True, timeout=timeout)
     except subprocess.TimeoutExpired as e:
         err = e.stderr or ''
